@@ -62,6 +62,12 @@ func runC02(c *Ctx) {
 	ruleOpenFlags(c, "C02.23")
 	ruleCapabilityPresent(c, "C02.24")
 	ruleReplaySkipsOnlyOnPageLSN(c, "C02.25")
+	ruleFlushLoopComplete(c, "C02.26")
+	ruleLogLengthBound(c, "C02.27")
+	ruleLogOpens(c, "C02.28")
+	ruleLogNeverShrinks(c, "C02.29")
+	ruleReplayUnconditional(c, "C02.30")
+	ruleNoLoopVarCapture(c, "C02.31", "storage", "engine")
 	ruleErrorsNotDropped(c, "C02.16", "storage.(*BTree).insert", "storage.(*RelationService).Insert", "storage.(*RelationService).MarkDeleted", "storage.(*RelationService).FlushWALBatch")
 }
 
